@@ -60,7 +60,7 @@ def image(mapping, op, nq, d, ps=True, wm="none", tol=None):
     if ps:
         if len(res) == 0:
             return sp.csr_matrix((2 ** nq, 2 ** nq), dtype=complex)
-        return sp.csr_matrix(res.to_mat(wire_order=order, format="csr"))
+        return sp.csr_matrix(res.to_mat(wire_order=order, format="csr", buffer_size=2 ** 24))
     if nq <= 8:
         return sp.csr_matrix(qp.matrix(res, wire_order=order))
     return sp.csr_matrix(res.sparse_matrix(wire_order=order))
@@ -184,16 +184,14 @@ def check_reject(spec):
 
     m, what = spec["m"], spec["what"]
     f = {"binary": qp.binary_mapping, "unary": qp.unary_mapping, "christiansen": qp.christiansen_mapping}[m]
+    exp = TypeError if what == "not-bose" else ValueError
     try:
         if what == "n_states<2":
             r = f(bword([[0, "+"]]), n_states=spec["d"])
-            exp = ValueError
         elif what == "sentence-n_states<2":
             r = f(1.0 * bword([[0, "+"]]) + 2.0 * bword([[1, "-"]]), n_states=spec["d"])
-            exp = ValueError
         else:
             r = f("b+(0)")
-            exp = TypeError
     except (ValueError, TypeError) as e:
         if isinstance(e, exp):
             return ok(outcome=type(e).__name__, nontrivial=False)
